@@ -534,7 +534,7 @@ func Run(r *report.Run) {
 	rev, irrev, skipped := 0, 0, 0
 	err := enum.ProcMap(len(cs), func(i int) Result { return Eval(ctx, cs[i]) }, func(i int, res Result) {
 		c := cs[i]
-		r.Case(fmt.Sprintf("%v|%v|%q", c.A, c.B, c.Indent), res.NonEmpty)
+		r.Case(fmt.Sprintf("%v|%v|%q|%v", c.A, c.B, c.Indent, c.Inspected), res.NonEmpty)
 		mu.Lock()
 		if res.Skipped != "" {
 			skipped++
